@@ -7,7 +7,10 @@ pub mod c05;
 pub mod c06;
 pub mod c09;
 pub mod c10;
+pub mod c11;
+pub mod c12;
 pub mod c13;
+pub mod c15;
 
 use crate::run::Tier;
 
@@ -21,7 +24,10 @@ pub fn dispatch(id: &str, tier: Tier) -> Option<i32> {
         "C06" => Some(c06::run(tier)),
         "C09" => Some(c09::run(tier)),
         "C10" => Some(c10::run(tier)),
+        "C11" => Some(c11::run(tier)),
+        "C12" => Some(c12::run(tier)),
         "C13" => Some(c13::run(tier)),
+        "C15" => Some(c15::run(tier)),
         _ => None,
     }
 }
